@@ -59,3 +59,7 @@ def run(ctx):
                        "response pair with a newer request) - shared with C10 TX-3", floor=1)
     from rules import c10 as _c10
     _c10.check_generator(rep, ctx.prog("default"), "MEAS-9")
+    rep.rule("MEAS-10", "the parent the measurement handlers filter on is replaced whenever the BMCA selects another "
+                        "PortIdentity (full identity, not only the clock) - shared with C07 NI-6", floor=1)
+    from rules import share as _share
+    _share.share(ctx, rep, "c07", "NI-6", "MEAS-10")
